@@ -33,13 +33,23 @@ theorem hook_order_fetch_1 : ModCache.coldHooks 1 .fetch =
 theorem hook_order_fetch_3 : ModCache.coldHooks 3 .fetch =
     ModCache.composeHooks 3 Gen.C16.fx_downloadZip1_hooks Gen.C16.fx_Fetch_hooks Gen.C16.fx_Unzip_hooks := by decide
 theorem hook_order_modfile : ModCache.coldHooks 3 .modFile = Gen.C16.fx_writeDiskCache_hooks := by decide
+/-- on a warm cache Fetch and FetchFromCache pass exactly downloadDir's hook point (between the
+two stat calls: the directory first, then the marker) -/
+theorem hook_order_warm_fetch :
+    (match ModCache.next 3 { ModCache.VSt.init with dir := some ⟨3, false, true⟩, zip := some .full } (0, 0) { start := .fetch } with
+     | some (s1, _) => ModCache.hooksAlone 3 (0, 0) 10 s1 []
+     | none => []) = Gen.C16.fx_downloadDir_hooks := by decide
+theorem hook_order_warm_fromcache :
+    (match ModCache.next 3 { ModCache.VSt.init with dir := some ⟨3, false, true⟩, zip := some .full } (0, 0) { start := .fetchFromCache } with
+     | some (s1, _) => ModCache.hooksAlone 3 (0, 0) 10 s1 []
+     | none => []) = Gen.C16.fx_downloadDir_hooks := by decide
 theorem hook_order_fromcache : ModCache.coldHooks 3 .fetchFromCache = Gen.C16.fx_FetchFromCache_hooks := by decide
 
 theorem pin_modcache_Cache_Fetch : Gen.C16.pin_modcache_Cache_Fetch = "1810321e9f520314" := by decide
 theorem pin_modcache_Cache_FetchFromCache : Gen.C16.pin_modcache_Cache_FetchFromCache = "e2bff6dd2316d2b5" := by decide
 theorem pin_modcache_Cache_downloadZip : Gen.C16.pin_modcache_Cache_downloadZip = "a0701c8899cddee4" := by decide
 theorem pin_modcache_Cache_downloadZip1 : Gen.C16.pin_modcache_Cache_downloadZip1 = "5d5ed189ad24fcc0" := by decide
-theorem pin_modcache_Cache_downloadDir : Gen.C16.pin_modcache_Cache_downloadDir = "8a8816174c0b1c55" := by decide
+theorem pin_modcache_Cache_downloadDir : Gen.C16.pin_modcache_Cache_downloadDir = "2d28fa0f75e2b582" := by decide
 theorem pin_modcache_Cache_cachePath : Gen.C16.pin_modcache_Cache_cachePath = "2fe45abf740296ec" := by decide
 theorem pin_modcache_Cache_lockVersion : Gen.C16.pin_modcache_Cache_lockVersion = "646ffb9c6ce0e9a1" := by decide
 theorem pin_modcache_Cache_writeDiskCache : Gen.C16.pin_modcache_Cache_writeDiskCache = "a9ab77214d3dd39b" := by decide
